@@ -158,7 +158,7 @@ def console_family(work, name, insess, cmds, maxcalls, maxatt, kinds, auth=1, in
             "subst": subst}
 
 
-def handshake_family(work, name, family, tier, seed, opts=None, workers=16):
+def handshake_family(work, name, family, tier, seed, opts=None, workers=16, metrics=False):
     """GenHandshake scenarios -> replay -> TraceHandshake validation."""
     subst = dict(SEED=seed, FAMILY=family, TIER=tier)
     t0 = time.time()
@@ -176,7 +176,10 @@ def handshake_family(work, name, family, tier, seed, opts=None, workers=16):
                 d = json.loads(line)
                 d["opts"] = opts
                 o.write(json.dumps(d) + "\n")
-    traces, info = replay(src, work, name, workers=workers)
+    if metrics:
+        traces, info = replay_sharded_procs(src, work, name)
+    else:
+        traces, info = replay(src, work, name, workers=workers)
     t2 = time.time()
     tracecfg = os.path.join(work, name + ".tracecfg.json")
     json.dump({"known": known_pairs()}, open(tracecfg, "w"))
@@ -219,3 +222,52 @@ def walk_family(work, name, module, cfg_tpl, family, tier, seed, workers=16, opt
             "consumed": consumed, "accepted": accepted, "viols": viols, "traces": traces,
             "times": {"gen": round(t1 - t0, 1), "replay": round(t2 - t1, 1), "validate": round(t3 - t2, 1)},
             "subst": dict(subst, opts=opts)}
+
+
+def replay_sharded_procs(scripts, work, name, procs=16, extra_args=("-metrics",)):
+    """One harness *process* per shard (single worker each): the Prometheus registry is process-global, so
+    metric snapshots are only meaningful when one connection runs at a time per process."""
+    exe = vlib.build_harness()
+    with open(scripts) as f:
+        hdr = f.readline()
+        lines = f.readlines()
+    procs = max(1, min(procs, len(lines)))
+    parts = [lines[i::procs] for i in range(procs)]
+    ps = []
+    for i, part in enumerate(parts):
+        src = os.path.join(work, "%s.part%d.ndjson" % (name, i))
+        with open(src, "w") as o:
+            o.write(hdr)
+            o.writelines(part)
+        out = os.path.join(work, "%s.mtrace.%d" % (name, i))
+        ps.append((subprocess.Popen([exe, "replay", "-in", src, "-out", out, "-workers", "1"] + list(extra_args),
+                                    stdout=subprocess.PIPE, stderr=subprocess.PIPE, text=True, env=vlib.GOENV), out))
+    traces, events = [], 0
+    for p, out in ps:
+        so, se = p.communicate(timeout=1800)
+        if p.returncode != 0:
+            raise vlib.Inconclusive("harness process failed: %s %s" % (so[-500:], se[-2000:]))
+        events += json.loads(so.strip().splitlines()[-1])["events"]
+        traces.append(out)
+    return traces, {"events": events, "procs": procs}
+
+
+def console_metrics_family(work, name, insess, cmds, maxcalls, maxatt, kinds, auth=1, integ=1, codes="Codes3", dupcodes="CodesOk"):
+    subst = dict(INSESSION="TRUE" if insess else "FALSE", CMDS=cmds, MAXCALLS=maxcalls, MAXATT=maxatt, KINDS=kinds,
+                 AUTH=auth, INTEG=integ, CODES=codes, DUPCODES=dupcodes)
+    t0 = time.time()
+    scripts, n, gst = generate("MCGenConsole", "Gen_Console.cfg.tpl", subst, work, name)
+    t1 = time.time()
+    hdr = json.loads(open(scripts).readline())
+    traces, info = replay_sharded_procs(scripts, work, name)
+    t2 = time.time()
+    tracecfg = os.path.join(work, name + ".tracecfg.json")
+    json.dump({"integLen": hdr["suite"]["integLen"], "bmcSid": hdr["suite"]["bmcSid"], "cmds": hdr["cmds"],
+               "known": known_pairs()}, open(tracecfg, "w"))
+    res = validate("TraceConsole", "Trace_Console.cfg", traces, tracecfg, work)
+    accepted, consumed, events, viols = summarise(res)
+    t3 = time.time()
+    return {"name": name, "scripts": n, "scripts_file": scripts, "gen_states": gst["distinct"], "events": events,
+            "consumed": consumed, "accepted": accepted, "viols": viols, "traces": traces,
+            "times": {"gen": round(t1 - t0, 1), "replay": round(t2 - t1, 1), "validate": round(t3 - t2, 1)},
+            "subst": dict(subst, metrics=True)}
